@@ -664,6 +664,16 @@ func (pids *pids) create(txidp *string, txTimeout int32) (int64, int16) {
 	// to avoid FNV-64 hash collisions between different txids.
 	if txidp != nil {
 		if pidinf, ok := pids.byTxid[*txidp]; ok {
+			// A new producer instance taking over a transactional
+			// ID fences the old one: any transaction the old
+			// instance left ongoing is aborted before the epoch
+			// bump (a real broker does this asynchronously behind
+			// CONCURRENT_TRANSACTIONS; kfake is synchronous).
+			// Without this the old transaction's records would be
+			// completed by the NEW instance's first EndTxn.
+			if pidinf.inTx {
+				pidinf.endTx(false)
+			}
 			pidinf = pids.bumpEpoch(pidinf)
 			pidinf.lastActive = time.Now()
 			return pidinf.id, pidinf.epoch
